@@ -10,7 +10,7 @@ from vf.xmodel import Schema, Rop, Bound, Outcome, build_api, build_loader
 SHARDS = {'quick': 16, 'thorough': 64}
 TIMEOUT = {'quick': 1200, 'thorough': 7200}
 MUST_HIT = ['QueryRef.select', 'QueryRef.navigate', 'QueryRef.subtype', 'QueryRef.two-hop',
-            'QueryRef.order_by-with-ties', 'QueryRef.set-valued-start', 'QueryRef.filter-covers-identifier']
+            'QueryRef.order_by-with-ties', 'QueryRef.set-valued-start', 'QueryRef.filter-covers-identifier', 'QueryRef.first-last']
 MUST_REACH = ['xtuml/meta.py:apply_query_operators', 'xtuml/meta.py:WhereEqual.__call__',
               'xtuml/meta.py:OrderBy.__call__', 'xtuml/meta.py:MetaClass.select_one',
               'xtuml/meta.py:MetaClass.select_many', 'xtuml/meta.py:MetaClass.navigate',
@@ -369,6 +369,8 @@ def run_queries(ctx, rng, b, handles, sch, nq, state_key):
             ctx.hit('QueryRef.navigate')
         else:
             live = [h for h in handles['A'] if sh.alive[h]]
+            if xtuml.navigate_subtype(None, 4) is not None:
+                ctx.violation('subtype/from-nothing', 'navigate_subtype(None, 4) is not None', case=dict(query='none'))
             if not live:
                 continue
             h = rng.choice(live)
@@ -386,6 +388,7 @@ def run_queries(ctx, rng, b, handles, sch, nq, state_key):
         if mode == 'many':
             ok = isinstance(got, xtuml.QuerySet)
             gl = [b.handle_of(x) for x in got] if ok else repr(got)
+            raw = list(gl) if ok else None
             want = exp
             if not ordered and ok:
                 # loaded model: link order unspecified, compare as duplicate-free sets
@@ -397,6 +400,13 @@ def run_queries(ctx, rng, b, handles, sch, nq, state_key):
         else:
             gl = b.handle_of(got)
             want = exp[0] if exp else None
+        if mode == 'many' and ok:
+            # the query set's own first / last agree with its iteration order
+            ctx.hit('QueryRef.first-last')
+            fl = [None if x is None else b.handle_of(x) for x in (got.first, got.last)]
+            if fl != ([raw[0], raw[-1]] if raw else [None, None]):
+                ctx.violation('%s/first-last' % q[0], '%r: first/last are %r, the result iterates as %r' % (q, fl, raw),
+                              case=dict(query=q, state=state_key))
         if gl != want:
             ctx.violation('%s/%s-result' % (q[0], mode),
                           '%r gave %r, expected %r' % (q, gl, want),
